@@ -81,6 +81,10 @@ fn parent(args: &[String]) -> i32 {
 
 fn main() {
     let args: Vec<String> = std::env::args().collect();
+    if args.len() >= 4 && args[1] == "_c18child" {
+        // the process that gets killed at an enumerated write (props_crashpoint.rs)
+        std::process::exit(vlib::props_crashpoint::c18_child(&args[2], &args[3]));
+    }
     if std::env::var("VCHECK_CHILD").is_err() && args.len() >= 3 {
         std::process::exit(parent(&args));
     }
